@@ -29,6 +29,13 @@ pub use peer::Peer;
 mod request_handler;
 mod wire;
 
+#[cfg(bmwill_anemo_verif)]
+pub(crate) use connection_manager::verif_hooks;
+#[cfg(bmwill_anemo_verif)]
+pub(crate) mod verif_wire {
+    pub(crate) use super::wire::*;
+}
+
 #[cfg(test)]
 mod tests;
 
